@@ -305,4 +305,6 @@ def extra_validation():
     # binary operators, 32 || / && terms), evaluated in a fresh process under both runners: no RecursionError may escape
     ws += [{"check": "c04.deep_expression", "args": {"calls": c, "lists": l, "adds": a, "terms": t, "zero": z}}
            for c, l, a, t, z in ((12, 12, 24, 1, False), (12, 12, 24, 32, False), (12, 12, 24, 32, True), (6, 12, 24, 16, False), (12, 0, 24, 32, True))]
+    # long compile histories on one Environment (bounded caches, eviction paths): enumeration
+    ws += [{"check": "c04.compile_sequence", "args": {"n": n, "every_bad": b}} for n, b in ((700, 5), (1100, 0), (300, 1), (2100, 64))]
     return ws
